@@ -276,7 +276,31 @@ def e_star_chain3_src(low):
     return e
 
 
+def e_star_redefined(low):
+    """the table is defined twice: later statements see the LATEST definition"""
+    k1, k2 = low("zqk1"), low("zqk2")
+    if bool(k1 == k2):
+        pairs = [(Cc(A, k1), Cc(W, k1)), (Cc(B, k1), Cc(W, k1))]
+    else:
+        pairs = [(Cc(A, k1), Cc(M, k1)), (Cc(B, k2), Cc(W, k2))]
+    return Expect(sources=[A, B], targets=[W], intermediates=[M], pairs=pairs)
+
+
+def e_star_between_redefinitions(low):
+    """a reader between the two definitions sees the first, a reader after them the second"""
+    k1, k2 = low("zqk1"), low("zqk2")
+    V = "s.v"
+    if bool(k1 == k2):
+        pairs = [(Cc(A, k1), Cc(W, k1)), (Cc(B, k1), Cc(W, k1)), (Cc(A, k1), Cc(V, k1)), (Cc(B, k1), Cc(V, k1))]
+    else:
+        pairs = [(Cc(A, k1), Cc(W, k1)), (Cc(B, k2), Cc(V, k2))]
+    return Expect(sources=[A, B], targets=[W, V], intermediates=[M], pairs=pairs)
+
+
 SESSION = {
+    "star_from_redefined": (["CREATE TABLE s.m AS SELECT zqk1 FROM s.ta", "CREATE TABLE s.m AS SELECT zqk2 FROM s.tb", "INSERT INTO s.w SELECT * FROM s.m"], e_star_redefined),
+    "star_between_redefinitions": (["CREATE TABLE s.m AS SELECT zqk1 FROM s.ta", "INSERT INTO s.w SELECT * FROM s.m",
+                                    "CREATE TABLE s.m AS SELECT zqk2 FROM s.tb", "INSERT INTO s.v SELECT * FROM s.m"], e_star_between_redefinitions),
     "star_chain3_unknown_source": (["INSERT INTO s.m SELECT * FROM s.ta", "CREATE TABLE s.m2 AS SELECT * FROM s.m", "INSERT INTO s.w SELECT * FROM s.m2",
                                     "SELECT zqk1 FROM s.other"], e_star_chain3_src),
     "star_chain_unknown_source": (["CREATE TABLE s.m AS SELECT * FROM s.ta", "INSERT INTO s.w SELECT * FROM s.m", "SELECT zqk1 FROM s.other"], e_star_chain_src),
